@@ -53,6 +53,8 @@ def lin_of(f, e):
 
 
 def run(prog, rep):
+    from rules import csvunescape
+    csvunescape.check(prog, rep, 'R9.10')
     from rules import csv_options
     csv_options.check(prog, rep, 'R9.8')
     rep.rule('R9.1', 'cell descriptor discipline: every (pointer,length) / (begin,end) built from CValueMeta covers exactly [Offset, Offset+Size)', floor=4)
